@@ -2,6 +2,7 @@
 scheduler of sched.py.  Scenario generation (boards, conforming decisions) uses only the harness's own
 independent statement of the rules (auction_common.law_*, play_common.law_winner)."""
 import io
+import logging
 import json
 import os
 import random
@@ -288,6 +289,7 @@ def run_session(scenario, policy, workdir, clients='scripted', faults=None, max_
                 server.run()
 
     S.spawn(sched, 'main', main)
+    sched.process_mains.add('main')          # the table manager's process ends when Server.run() returns or raises
     for label, fn in (attempts(addr, outs) if attempts is not None else []):
         S.spawn(sched, label, fn)
     for p in (SEATS if attempts is None else []):
@@ -314,6 +316,8 @@ def run_session(scenario, policy, workdir, clients='scripted', faults=None, max_
     r.exceptions = {ct.label: repr(ct.exc) for ct in sched.threads if ct.exc is not None}
     r.ops = {ct.label: ct.ops for ct in sched.threads}
     r.finished = {ct.label: ct.finished for ct in sched.threads}
+    r.killed = list(sched.killed)
+    r.ops_at = {ct.label: ct.ops_at for ct in sched.threads}
     r.conns = [(c.client_label, bytes(c.log_s2c), bytes(c.log_c2s), c.server_closed, c.client_closed)
                for c in S.NET.conns]
     r.outs = outs
